@@ -139,3 +139,122 @@ pub use self::{
 
 pub type IdentTopic = Topic<self::topic::IdentityHash>;
 pub type Sha256Topic = Topic<self::topic::Sha256Hash>;
+
+/// Verification hook (add-only, compiled only with `--cfg libp2p_verif`): thin access for the
+/// external verification harness to the wire codec, the generated protobuf types, the message
+/// and duplicate caches, and the clock the duplicate cache reads. No logic lives here.
+#[cfg(libp2p_verif)]
+pub mod verif_codec {
+    use std::{collections::HashSet, time::Duration};
+
+    use libp2p_identity::PeerId;
+
+    pub use crate::{
+        handler::HandlerEvent,
+        protocol::{GossipsubCodec, ProtocolConfig},
+        types::{ControlAction, RpcIn, Subscription, SubscriptionAction},
+    };
+    use crate::{MessageId, RawMessage, TopicHash};
+
+    /// The generated protobuf types (all fields public).
+    pub mod proto {
+        pub use crate::rpc_proto::proto::*;
+    }
+
+    /// The [`ProtocolConfig`] (the upgrade that constructs the [`GossipsubCodec`]) of a config.
+    pub fn protocol_config(config: &crate::Config) -> ProtocolConfig {
+        config.protocol_config()
+    }
+
+    /// Clock read by `time_cache.rs` under the guard: the real instant plus a thread-local offset
+    /// that only the harness advances.
+    pub mod clock {
+        use std::{cell::Cell, time::Duration};
+
+        thread_local! {
+            static OFFSET: Cell<Duration> = const { Cell::new(Duration::ZERO) };
+        }
+
+        #[derive(Clone, Copy, Debug, PartialEq, Eq, PartialOrd, Ord)]
+        pub struct Instant(web_time::Instant);
+
+        impl Instant {
+            pub fn now() -> Self {
+                Instant(web_time::Instant::now() + OFFSET.with(|o| o.get()))
+            }
+
+            pub fn checked_add(&self, duration: Duration) -> Option<Self> {
+                self.0.checked_add(duration).map(Instant)
+            }
+        }
+
+        /// Move this thread's clock forward.
+        pub fn advance(duration: Duration) {
+            OFFSET.with(|o| o.set(o.get() + duration))
+        }
+    }
+
+    /// `mcache::MessageCache` (crate-private), method for method.
+    pub struct MessageCache(crate::mcache::MessageCache);
+
+    impl MessageCache {
+        pub fn new(gossip: usize, history_capacity: usize) -> Self {
+            Self(crate::mcache::MessageCache::new(gossip, history_capacity))
+        }
+
+        pub fn put(&mut self, message_id: &MessageId, msg: RawMessage) -> bool {
+            self.0.put(message_id, msg)
+        }
+
+        pub fn observe_duplicate(&mut self, message_id: &MessageId, source: &PeerId) {
+            self.0.observe_duplicate(message_id, source)
+        }
+
+        pub fn get_with_iwant_counts(
+            &mut self,
+            message_id: &MessageId,
+            peer: &PeerId,
+        ) -> Option<(&RawMessage, u32)> {
+            self.0.get_with_iwant_counts(message_id, peer)
+        }
+
+        pub fn validate(
+            &mut self,
+            message_id: &MessageId,
+        ) -> Option<(&RawMessage, HashSet<PeerId>)> {
+            self.0.validate(message_id)
+        }
+
+        pub fn get_gossip_message_ids(&self, topic: &TopicHash) -> Vec<MessageId> {
+            self.0.get_gossip_message_ids(topic)
+        }
+
+        pub fn shift(&mut self) {
+            self.0.shift()
+        }
+
+        pub fn remove(&mut self, message_id: &MessageId) -> Option<(RawMessage, HashSet<PeerId>)> {
+            self.0.remove(message_id)
+        }
+    }
+
+    /// `time_cache::DuplicateCache` (crate-private), method for method.
+    pub struct DuplicateCache<Key>(crate::time_cache::DuplicateCache<Key>);
+
+    impl<Key> DuplicateCache<Key>
+    where
+        Key: Eq + std::hash::Hash + Clone,
+    {
+        pub fn new(ttl: Duration) -> Self {
+            Self(crate::time_cache::DuplicateCache::new(ttl))
+        }
+
+        pub fn insert(&mut self, key: Key) -> bool {
+            self.0.insert(key)
+        }
+
+        pub fn contains(&self, key: &Key) -> bool {
+            self.0.contains(key)
+        }
+    }
+}
